@@ -49,6 +49,8 @@ def main():
             cmd = [sys.executable, "-m", "dst", p, "--tier", tier]
             if runs:
                 cmd += ["--runs", runs]
+            if "--no-shrink" in args:
+                cmd += ["--no-shrink"]
             out = subprocess.run(cmd, cwd=VERIF, env=env, capture_output=True, text=True)
             print(f"--- {p} rc={out.returncode}")
             print("\n".join(ln[:400] for ln in out.stdout.splitlines()[-12:]))
